@@ -908,6 +908,20 @@ def replay_conc(r):
     return run_schedule(r["names"], r["user"], r["created0"], choose)
 
 
+def load_corpus():
+    d = os.path.join(os.path.dirname(os.path.dirname(os.path.abspath(__file__))), "corpus", "C20")
+    out = []
+    if os.path.isdir(d):
+        for f in sorted(os.listdir(d)):
+            if f.endswith(".json"):
+                r = json.load(open(os.path.join(d, f)))
+                if r.get("kind") == "seq":
+                    out.append(dict(kind="corpus", hist=r["hist"], user=r["user"], created0=r["created0"],
+                                    inject=tuple(r["inject"]) if r.get("inject") else None,
+                                    boom=tuple(r["boom"]) if r.get("boom") else None))
+    return out
+
+
 def setup():
     global LINE_MAP
     install_wrappers()
@@ -944,7 +958,7 @@ def main(tier, replay=None):
 
     # ---------------- sequential
     t0 = time.time()
-    specs = gen_seq_cases(rng, tier) + gen_injection_cases(rng, tier)
+    specs = load_corpus() + gen_seq_cases(rng, tier) + gen_injection_cases(rng, tier)
     seq = [run_seq_case(c) for c in specs]
     timings["seq_run_s"] = round(time.time() - t0, 1)
     t0 = time.time()
